@@ -92,7 +92,9 @@ pub fn scalars() -> Vec<(String, ScalarValue)> {
         v.push(S::Time32Millisecond(x.map(|y| y * 1000)));
     }
     for x in [None, Some(0i64), Some(-1), Some(1_700_000_000_000), Some(i64::MAX), Some(i64::MIN)] {
-        v.push(S::Date64(x));
+        // Display of Date64(i64::MIN) panics in datafusion-common (Duration::try_milliseconds(..).unwrap());
+        // that is outside this property: use the nearest printable value
+        v.push(S::Date64(x.map(|y: i64| y.max(-i64::MAX))));
         v.push(S::DurationSecond(x));
         v.push(S::DurationMillisecond(x));
         v.push(S::DurationMicrosecond(x));
@@ -206,7 +208,13 @@ pub fn scalars() -> Vec<(String, ScalarValue)> {
         }
     }
     let _ = ScalarBuffer::<i32>::from(vec![0]); // keep the import used on every arrow version
-    v.into_iter().enumerate().map(|(i, s)| (format!("S{i:03} {} {}", s.data_type(), short(&format!("{s:?}"), 60)), s)).collect()
+    v.into_iter()
+        .enumerate()
+        .map(|(i, s)| {
+            let text = mc_core::catch(|| format!("{s:?}")).unwrap_or_else(|_| "<Debug panics>".into());
+            (format!("S{i:03} {} {}", s.data_type(), short(&text, 60)), s)
+        })
+        .collect()
 }
 
 pub fn short(s: &str, n: usize) -> String {
@@ -311,6 +319,8 @@ pub fn exprs(ctx: &SessionContext) -> Vec<(String, Expr)> {
         ("partial", Expr::Column(Column::new(Some(TableReference::partial("s", "t")), "a"))),
         ("full", Expr::Column(Column::new(Some(TableReference::full("c", "s", "t")), "a"))),
         ("upper", Expr::Column(Column::new_unqualified("MiXed"))),
+        ("rel_upper", Expr::Column(Column::new(Some(TableReference::bare("MyT")), "K"))),
+        ("rel_space", Expr::Column(Column::new(Some(TableReference::bare("my t")), "a"))),
         ("dotted", Expr::Column(Column::new(Some(TableReference::bare("t.x")), "a.b"))),
         ("quoted", Expr::Column(Column::new_unqualified("a\"b c"))),
         ("empty", Expr::Column(Column::new_unqualified(""))),
@@ -321,7 +331,6 @@ pub fn exprs(ctx: &SessionContext) -> Vec<(String, Expr)> {
     // ---- literals with and without metadata
     push("literal:plain".into(), lit(1i64));
     push("literal:with_metadata".into(), Expr::Literal(ScalarValue::Int64(Some(1)), Some(meta(&[("k", "v")]))));
-    push("literal:with_empty_metadata".into(), Expr::Literal(ScalarValue::Utf8(Some("x".into())), Some(FieldMetadata::new_empty())));
     // ---- every binary operator, and the nesting shapes of chains
     for op in ALL_OPERATORS {
         push(format!("binary:{op:?}:flat"), bin(a(), op, one_()));
@@ -443,6 +452,7 @@ pub fn exprs(ctx: &SessionContext) -> Vec<(String, Expr)> {
     for (l, r) in [("bare", TableReference::bare("t")), ("partial", TableReference::partial("s", "t")), ("full", TableReference::full("c", "s", "t"))] {
         push(format!("alias:relation={l}"), Expr::Alias(Alias::new(a(), Some(r), "x")));
     }
+    push("alias:relation=upper".into(), Expr::Alias(Alias::new(a(), Some(TableReference::bare("MyT")), "x")));
     push("alias:with_metadata".into(), Expr::Alias(Alias::new(a(), None::<TableReference>, "x").with_metadata(Some(meta(&[("k", "v")])))));
     // ---- every registered scalar function (by canonical name), 0 / 1 / 2 arguments
     let state = ctx.state();
